@@ -17,6 +17,7 @@
  *     rejectsweep <field> tried= einval= every single-bit flip of header_version, header_length, mmap_address, mmap_length and of the stored
  *                                        topology ABI (plus abi+-1, +-0x100, 0x38000, other majors): all must give EINVAL; the others are "reject" lines
  *     adopt rc= errno=
+ *     ptrrange ok|BAD blocks= outside=   every block of the adopted topology lies inside the mapping ("ptrrange OUTSIDE <field>" lines otherwise)
  *     obscmp same|DIFF ...               observation of the adopted copy (in a grandchild: a fault is a result)
  *     B <dump>                           canonical dump of the adopted copy (wf_check by the driver)
  *     call <name> <ok|rc=-1:ERR|SIG<n>> file=same|CHANGED      every call in its own grandchild
@@ -217,6 +218,28 @@ static int rej_table(void *a)
   return 0;
 }
 
+/* the stored copy must be self-contained: every block reachable from the adopted topology through the private structures lies inside
+   the mapping [addr, addr+len), except what hwloc_shmem_topology_adopt allocates for the adopter (the topology structure, the four
+   support structures, the topology infos, the allowed sets).  Pointers to anything else (the writer's heap, the .rodata of the writer's
+   libhwloc, ...) dangle in a process where those are mapped elsewhere.  Shared-by-design pointers (object userdata) are not blocks. */
+static void check_pointer_range(hwloc_topology_t t, void *addr, size_t len)
+{
+  struct hwv_walk w; FILE *nul = fopen("/dev/null", "w"); unsigned i, n = 0, bad = 0;
+  hwv_walk_init(&w, nul, t, NULL);
+  hwv_ptree(&w, t);
+  for (i = 0; i < w.nrec; i++) {
+    const struct hwv_rec *r = &w.recs[i]; const char *f = r->field;
+    if (!r->addr || r->kind == -1) continue;                       /* NULL, or an opaque pointer that is not a block of the topology */
+    if (!strcmp(f, "topology") || !strncmp(f, "support.", 8) || !strncmp(f, "topology.infos.", 15) || !strncmp(f, "allowed_", 8)) continue;
+    n++;
+    if ((const char *)r->addr < (const char *)addr || (const char *)r->addr >= (const char *)addr + len) {
+      if (bad++ < 8) printf("ptrrange OUTSIDE %s kind=%d\n", f, r->kind);
+    }
+  }
+  printf("ptrrange %s blocks=%u outside=%u\n", bad ? "BAD" : "ok", n, bad);
+  hwv_walk_fini(&w, 1); fclose(nul);
+}
+
 static int adopt_and_exercise(void *a)
 {
   struct ad *d = a; int rc, e;
@@ -226,6 +249,7 @@ static int adopt_and_exercise(void *a)
   errno = 0; rc = hwloc_shmem_topology_adopt(&ADOPTED, d->fd, d->off, d->addr, d->len, 0); e = errno;
   printf("adopt rc=%d errno=%s\n", rc, rc < 0 ? hwv_errno_class(e) : "0");
   if (rc < 0) return 0;
+  check_pointer_range(ADOPTED, d->addr, d->len);
   { int st; st = in_child(c_observe, NULL); if (st < 0) printf("obscmp SIG%d", -st); fputc('\n', stdout); }
   { int st = in_child(c_dump, NULL); if (st < 0) printf("dump SIG%d\n", -st); }
   run_call("distances_query", c_distances_query, d->fd); run_call("memattr_query", c_memattr_query, d->fd);
@@ -382,6 +406,13 @@ static int do_readopt(void *a)
   free_range();
   errno = 0; rc = hwloc_shmem_topology_adopt(&ADOPTED, d->fd, d->off, d->addr, d->len, 0);
   if (rc < 0) { printf("rc=-1:%s", hwv_errno_class(errno)); return 0; }
+  { /* self-contained image: one word in front of the observation verdict */
+    struct hwv_walk w; FILE *nul = fopen("/dev/null", "w"); unsigned i, bad = 0;
+    hwv_walk_init(&w, nul, ADOPTED, NULL); hwv_ptree(&w, ADOPTED);
+    for (i = 0; i < w.nrec; i++) { const struct hwv_rec *r = &w.recs[i]; const char *f = r->field;
+      if (!r->addr || r->kind == -1 || !strcmp(f, "topology") || !strncmp(f, "support.", 8) || !strncmp(f, "topology.infos.", 15) || !strncmp(f, "allowed_", 8)) continue;
+      if ((const char *)r->addr < (const char *)d->addr || (const char *)r->addr >= (const char *)d->addr + d->len) { if (!bad++) printf("ptrrange-OUTSIDE:%s ", f); } }
+    hwv_walk_fini(&w, 1); fclose(nul); }
   c_observe(NULL);
   hwloc_topology_destroy(ADOPTED);
   return 0;
